@@ -57,6 +57,8 @@ class StepMonitor(object):
         self.states = set()
         self.D = None
         self.prev_cost = None
+        self.prevR = None
+        self.mask_created = None
         self.directed = routine in DIR or routine == 'randmio_dir_signed'
         self.signed = routine in SIGNED
 
@@ -83,6 +85,8 @@ class StepMonitor(object):
             if s.get('D') is not None:
                 self.D = np.array(s['D'], dtype=float)
                 self.prev_cost = float(np.sum(self.D * R))
+            if self.B is not None:
+                self.prevR = np.array(R, copy=True)
             self.conn0 = None
             if self.routine in CONNECTED:
                 self.conn0 = G.strongly_connected(R) if self.directed else G.connected_und(R)
@@ -134,9 +138,14 @@ class StepMonitor(object):
                 self._set_breach('step_cost', 'lattice cost rose %.12g -> %.12g at swap %d' % (self.prev_cost, cost, self.swaps))
             self.prev_cost = cost
         if self.B is not None:
-            a, b, c, d = s.get('a'), s.get('b'), s.get('c'), s.get('d')
-            if self.B[a, d] != 0 or self.B[c, b] != 0 or self.B[d, a] != 0 or self.B[b, c] != 0:
-                self._set_breach('step_mask', 'swap %d wrote into a masked cell' % self.swaps)
+            # statement-level, observed while the run proceeds: a cell that was empty before this swap and holds a connection
+            # after it was *created* by the swap; it must not be a masked cell (independent of the routine's own a,b,c,d)
+            if self.prevR is not None:
+                created = (R != 0) & (self.prevR == 0) & (self.B != 0)
+                if created.any() and self.mask_created is None:
+                    self.mask_created = (self.swaps, np.argwhere(created).tolist()[:4])
+                    self._set_breach('step_mask', 'swap %d created a connection in masked cell(s) %s' % (self.swaps, self.mask_created[1]))
+            self.prevR = np.array(R, copy=True)
 
 
 def call_routine(routine, W, p, rng):
@@ -184,7 +193,7 @@ def judge_c01(routine, W, p, out, mon):
         v.append(('diagonal', 'diagonal changed: %s' % np.diag(R).tolist()))
     if not directed and not np.array_equal(R, R.T):
         v.append(('symmetry', 'undirected routine returned an asymmetric matrix'))
-    if directed and not np.allclose(R.sum(axis=1), W.sum(axis=1), rtol=1e-9, atol=1e-9):
+    if directed and not np.allclose(R.astype(np.float64).sum(axis=1), W.astype(np.float64).sum(axis=1), rtol=1e-9, atol=1e-9):  # summed in float64 whatever the container
         v.append(('out_strength', 'out-strength changed: %s -> %s' % (W.sum(1).tolist(), R.sum(1).tolist())))
     zero = (p.get('itr') == 0 or p.get('maxswap') == 0 or p.get('alpha') == 0 or (eff is not None and eff == 0))
     if zero and not np.array_equal(R, W):
@@ -223,6 +232,14 @@ def judge_c11(routine, W, p, out, mon, hookD):
         bad = (B != 0) & (R != 0) & (W == 0)
         if bad.any():
             v.append(('mask', 'connection created in masked cell(s) %s' % np.argwhere(bad).tolist()[:4]))
+        else:
+            # weights are moved, never computed: a masked cell that holds a different non-zero weight than in the input
+            # received a new connection after its own was rewired away
+            moved = (B != 0) & (R != 0) & (W != 0) & (R != W)
+            if moved.any():
+                v.append(('mask', 'masked cell(s) %s hold a connection that was placed there by a rewiring (weight differs from the input)' % np.argwhere(moved).tolist()[:4]))
+            elif mon is not None and mon.mask_created is not None:
+                v.append(('mask', 'swap %d created a connection in masked cell(s) %s (observed through the swap hook)' % mon.mask_created))
     return v
 
 
@@ -375,8 +392,19 @@ def gen_case(sub, routines, scn_id, connected=False, nmax=12, invalid_frac=0.0):
         params['B'] = enc(B)
     elif routine != 'randomizer_bin_und':
         params['itr'] = rnd.choice((0, 1, 1, 2, 3, 5, 0.5))
-    if rnd.random() < 0.12 and meta.get('wkind') in ('bin', 'int'):
+    r = rnd.random()
+    if r < 0.12 and meta.get('wkind') in ('bin', 'int'):
         W = W.astype(np.int64)
+    elif r < 0.17 and meta.get('wkind') in ('bin', 'int'):
+        W = W.astype(np.int32)
+    elif r < 0.21 and meta.get('wkind') == 'bin':
+        W = W.astype(bool)
+    elif r < 0.26:
+        W = W.astype(np.float32)
+    if expect_reject == 'asymmetric' and np.allclose(W, W.T):
+        expect_reject = None  # the container type rounded the asymmetry away
+    if expect_reject == 'disconnected' and G.connected_und(W):
+        expect_reject = None
     k = int((W != 0).sum()) // (1 if directed else 2)
     itr = params.get('itr', params.get('maxswap', 1)) or 1
     budget = int(20000 + 400 * itr * max(k, 1) * 3)
